@@ -61,7 +61,7 @@ class C12(Prop):
         "wq_no_lost_wakeup_reader", "wq_wake_delivers", "wq_no_overflow", "wq_run_reachable",
         "wq_reset_while_pending_loses_wakeup", "wq_unrepaired_remove_loses_block",
         "codec_unpack5_pack5", "codec_unpack2_pack2", "codec_unpack2_pack5", "codec_packet_count", "codec_eod_last",
-        "codec_unpack_chunk")]
+        "codec_unpack_chunk", "th_barrier", "th_counter", "th_no_lost_wakeup_master", "th_progress")]
     claimed = True
     level_text = ("Theorems for every schedule of one reader and any number of workers (one atomic step per mutex-protected region, spurious wake-ups allowed): "
                   "conservation and exclusivity of blocks, FIFO on both queues (history variables), counters in range and pendingWorkers = number of sleepers, "
@@ -110,6 +110,7 @@ class C12(Prop):
                                                         "wq wupd w=1 in=0 out=1", "wq wupd w=1 in=1 out=1", "wq rupd in=2 out=0", "wq reset", "wq complete",
                                                         "wq rupd in=0 out=1", "wq remove", "wq remove"]})
         c.append({"name": "wqrun-small", "ops": ["wqrun size=1 workers=1 blocks=1 items=3 seed=1 pert=0", "wqrun size=4 workers=3 blocks=4 items=12 seed=2 pert=60"]})
+        c.append({"name": "thrun-small", "ops": ["thrun workers=1 rounds=2 seed=1 pert=0", "thrun workers=4 rounds=2 seed=3 pert=70"]})
         c.append(self.dsq_case("dsq-one-per-chunk", "dna", [[0, 1, 2, 3] * 5, [], [15] * 7, [0, 1, 2, 3] * 10 + [4 + 1]], 1, 8, 2, 2, 1))
         c.append(self.dsq_case("dsq-single-empty-seq", "amino", [[]], 3, 4, 1, 2, 1))
         return c
@@ -222,6 +223,11 @@ class C12(Prop):
             out.append({"name": "wqrun%d" % c, "ops": ["wqrun size=%d workers=%d blocks=%d items=%d seed=%d pert=%d" % (
                 size, W, B, M, rng.randrange(1, 1 << 30), rng.choice([0, 10, 30, 60, 90]))]})
             stats["wqrun"] += 1
+        # --- start rendezvous
+        for c in range(25 if quick else 300):
+            out.append({"name": "thrun%d" % c, "ops": ["thrun workers=%d rounds=%d seed=%d pert=%d" % (
+                rng.choice([1, 2, 3, 4, 6, 8, rng.randrange(1, 17)]), rng.randrange(1, 4), rng.randrange(1, 1 << 30), rng.choice([0, 20, 50, 90]))]})
+            stats["thrun"] = stats.get("thrun", 0) + 1
         # --- databases
         for c in range(40 if quick else 500):
             amino = rng.random() < 0.45
@@ -259,6 +265,12 @@ class C12(Prop):
                 ctx.stats["trace_steps_validated"] = ctx.stats.get("trace_steps_validated", 0) + tr.count(";") + 1
                 if not res[0].startswith("ok "):
                     return (i, "trace: " + res[0][:400], "trace: a path of the work-queue model")
+            if op.startswith("thrun ") and " trace=" in l:
+                tr = l[l.find(" trace=") + 7:]
+                res = run_side(ctx.driver_exe, [{"name": "t", "ops": ["thtrace ev=%s" % tr]}], cwd=ctx.work)[0] or ["<no answer>"]
+                ctx.stats["trace_steps_validated"] = ctx.stats.get("trace_steps_validated", 0) + tr.count(";") + 1
+                if not res[0].startswith("ok "):
+                    return (i, "trace: " + res[0][:400], "trace: a path of the start-rendezvous model")
         return None
 
     def nontrivial(self, case, out):
@@ -299,6 +311,10 @@ class C12(Prop):
                 want = "ok items=%s processed=%s stops=%s order=fifo final=%s,0,0 removed=%s" % (a["items"], a["items"], a["workers"], a["blocks"], a["blocks"])
                 if self.canonical(l) != want:
                     return Failure("monitor", "threaded run lost / duplicated / reordered work or did not finish cleanly: got %r want %r" % (self.canonical(l)[:200], want))
+            elif w[0] == "thrun":
+                want = "ok workers=%s rounds=%s idx=ok early=0" % (a["workers"], a["rounds"])
+                if self.canonical(l) != want:
+                    return Failure("monitor", "start rendezvous: a worker passed the gate early / worker indices not a bijection / did not finish: got %r" % self.canonical(l)[:200])
             elif w[0] == "dsqrt":
                 if l.startswith(("fault", "atexit")):
                     return Failure("fault", "threaded read-back died: %s" % l[:200])
